@@ -5,6 +5,7 @@ from fractions import Fraction
 
 import core
 import corecheck
+import renderoracle
 import gen
 
 TOL = Fraction(1, 10 ** 9)
@@ -87,8 +88,26 @@ def run(res, ctx):
     maxres = ZERO
     n = 500 if tier == "quick" else 8000
     done = 0
+    first = True
     while done < n:
         cases = []
+        if first:
+            # crafted: one large holder and several tiny ones buying inside the window of a small loss:
+            # each tiny affiliate's share of the denied loss is a fraction of a cent and must still be added
+            first = False
+            for _ in range(30 if tier == "quick" else 300):
+                d0 = core.BASE_DAY + rng.randint(10, 300)
+                big = rng.choice([500, 1000, 5000])
+                px = rng.randint(5, 40)
+                small = rng.sample([a for a in NONREG if a != ""], rng.randint(1, min(3, len(NONREG) - 1)))
+                def _r(day, act, sh, aps, af):
+                    return {"sec": "FOO", "td": d0 + day, "sd": d0 + day, "act": act, "sh": core.D(sh), "aps": aps,
+                            "com": None, "cur": None, "rate": None, "af": af if af != "" else None}
+                rows = [_r(0, "Buy", big, core.D(px), "")]
+                rows += [_r(1 + j, "Buy", rng.choice([1, 1, 2]), core.D(px), a) for j, a in enumerate(small)]
+                rows.append(_r(10, "Sell", rng.choice([50, 100, big // 2]), core.D(px * 100 - rng.randint(1, 9), 2), ""))
+                rows += [_r(60 + j, "Sell", 1, core.D(px + 1), a) for j, a in enumerate(small)]
+                cases.append({"rows": rows, "inits": {}})
         for _ in range(min(500, n - done)):
             k = rng.random()
             afs = rng.sample(NONREG, rng.choice([1, 2, 2, 3, 3, 4]))
@@ -99,8 +118,14 @@ def run(res, ctx):
                 inits["FOO"] = (core.D(rng.randint(0, 50)), core.D(rng.randint(0, 100000), 2))
             cases.append({"rows": rows, "inits": inits})
         done += len(cases)
-        for r in corecheck.run_cases(ctx, cases):
+        for r in corecheck.run_cases(ctx, cases, render=True):
             st["evaluations"] += 1
+            # "flagged by the report as potentially over-applied": the [1] marker and its legend
+            rstat, probs = renderoracle.check_run(r, groups=("over",))
+            st["report-" + rstat] += 1
+            if probs and rstat == "ok":
+                res.violation("failing-input", "the report's over-applied flag does not match the ledger: " + probs[0][1],
+                              {"input": r["hc"], "problems": [m_ for _, m_ in probs[:5]]})
             d = core.diff_exact(r["dec"], r["impl"])
             if d is not None:
                 corr.append((r, d))
